@@ -107,7 +107,7 @@ def _req(c):
         return "(RShape %s %s)" % (oc.ctys(r["tys"]), oc.cstrs(r["attr"]))
     td = r["tydesc"]
     cb = r["combo"]
-    if cb in ("iso", "morphism"):
+    if cb in ("iso", "morphism", "morphism-nested"):
         items = []
         for i in r["isos"]:
             if i is None:
@@ -141,7 +141,7 @@ def _obs(c):
     if "via" in r:
         return "(OLenses [%s])" % "; ".join(od.clobs(x) for x in o["lenses"])
     cb = r["combo"]
-    if cb in ("iso", "morphism"):
+    if cb in ("iso", "morphism", "morphism-nested"):
         return "(OMorph %s %s %s %s %s %s %s %s)" % (oc.hexs(o["before_t"]), oc.hexs(o["before_s2"]), vlib.blit(o["pf"]), vlib.blit(o["pi"]),
                                                   _diff(o["ds1"]), _diff(o["dt1"]), _diff(o["ds2"]), _diff(o["dt2"]))
     if cb == "mapkey":
